@@ -35,8 +35,9 @@ KFCell(c) ==
          ELSE IF c.ref = "name" /\ c.shape \in NotIdentifierNames /\ c.pos \in {"schema", "responseHeader", "header", "operationId"} THEN "c01-name-not-identifier"
          ELSE IF c.ref = "config" /\ c.shape = "client-without-handler" THEN "c01-client-without-handler"
          ELSE IF c.ref = "config" /\ c.shape = "apikey-header-also-declared-parameter" THEN "c01-apikey-header-declared-twice"
-         ELSE IF c.ref = "config" /\ c.shape = "static-and-variable-child-same-name" THEN "c01-route-name-collision"
          ELSE IF c.ref = "wireop" /\ c.pos = "aliasResponseInlineObjectBody" THEN "c01-alias-response-inline-body"
+         \* (pos "routenames-opcollide": RouteNames.OpCollides holds of the cell's template pair and no operationId is given)
+         ELSE IF c.ref = "config" /\ c.pos = "routenames-opcollide" THEN "c01-operation-name-collision"
          ELSE ""
     ELSE IF c.kind = "mutant" THEN
          IF c.shape = "template-error" THEN "c15-template-error-unlocated"
